@@ -283,7 +283,7 @@ fn run_board(prop: Prop, tier: Tier) -> i32 {
     }
 
     // STAR: up to eight absolute pins around one king
-    if matches!(prop, Prop::C01 | Prop::C05 | Prop::C03) {
+    if matches!(prop, Prop::C01 | Prop::C05 | Prop::C03) || (tier == Tier::Thorough && matches!(prop, Prop::C02 | Prop::C06)) {
         let t0 = Instant::now();
         let fam = Star;
         let sf = Strided(&fam, if tier == Tier::Quick { 7 } else { 1 });
